@@ -12,6 +12,10 @@ import Varlink.ExpectedCode
 namespace Varlink.C16
 open Varlink Varlink.Race Varlink.Extracted
 
+/-- the extracted access table with run-time lock states: accesses of `bind`, `parseAddress`, `setListener` happen
+    under the mutex of `Bind` / `Listen` (see `Race.effective`, `helpers_run_under_callers_lock`) -/
+def serviceTable : List Access := effective serviceAccesses mutexFns
+
 /-! ### 1. the discipline excludes races (any program, any number of threads) -/
 
 /-- **lockset soundness**: if every pair of conflicting accesses of two threads is either under the
@@ -63,22 +67,30 @@ example : ¬ Disciplined ([[.spawn 1, .acc 0 .write], [.acc 0 .write, .send 7]] 
     accesses of functions that may run in different goroutines (see `mayOverlap`) is under the mutex on
     both sides, or is the pair "RegisterInterface (under the mutex) / connection handler reading an
     interface table" that section 3 covers.  Fails to build as soon as an unprotected access appears. -/
-theorem service_disciplined : TableDisciplined serviceAccesses := by decide +kernel
+theorem service_disciplined : TableDisciplined serviceTable := by decide +kernel
 
-/-- the walk found a definite lock state everywhere, the mutex is never held across a call of another
-    Service method or a `go`, and `running`, `conncounter`, `listener` are written only under the mutex -/
+/-- which functions run under their callers' mutex (since fix a1069ea: the helpers of `Bind`) -/
+theorem helpers_run_under_callers_lock :
+    Fn.all.filter (underCallersLock serviceAccesses mutexFns Fn.all.length) = [.parseAddress, .setListener, .bind] := by
+  decide +kernel
+
+/-- the walk found a definite lock state everywhere, the mutex is never held across a `go` and is held across a
+    call of another Service method only when that method runs under its callers' mutex and never locks itself,
+    and `running`, `conncounter`, `listener`, `protocol`, `address` are written only under the mutex -/
 theorem service_lock_states :
-    serviceAccesses.all (fun a => a.lock != .unknown) = true ∧
-    noCallUnderLock serviceAccesses = true ∧
-    writesHeld serviceAccesses .running = true ∧
-    writesHeld serviceAccesses .conncounter = true ∧
-    writesHeld serviceAccesses .listener = true := by decide +kernel
+    serviceTable.all (fun a => a.lock != .unknown) = true ∧
+    callsUnderLockOK serviceAccesses mutexFns = true ∧
+    writesHeld serviceTable .running = true ∧
+    writesHeld serviceTable .conncounter = true ∧
+    writesHeld serviceTable .listener = true ∧
+    writesHeld serviceTable .protocol = true ∧
+    writesHeld serviceTable .address = true := by decide +kernel
 
 /-- the roles used by `mayOverlap`, computed from the extracted call edges -/
 theorem service_roles :
-    servingFns serviceAccesses = [.Bind, .Listen, .DoListen, .parseAddress, .setListener, .isRunning, .refreshTimeout, .teardown] ∧
-    handlerFns serviceAccesses = [.handleConnection, .HandleMessage, .orgvarlinkserviceDispatch, .getInfo, .getInterfaceDescription] ∧
-    apiFns serviceAccesses = [.Shutdown, .GetListener, .RegisterInterface] := by decide +kernel
+    servingFns serviceTable = [.Bind, .Listen, .DoListen, .bind, .isRunning, .refreshTimeout, .teardown, .parseAddress, .setListener] ∧
+    handlerFns serviceTable = [.handleConnection, .HandleMessage, .orgvarlinkserviceDispatch, .getInfo, .getInterfaceDescription] ∧
+    apiFns serviceTable = [.Shutdown, .GetListener, .RegisterInterface] := by decide +kernel
 
 /-- **the lock discipline of the table carries over to every intended use**: in every reachable state of
     every such program (any number of threads), two threads about to perform conflicting accesses can
@@ -108,9 +120,9 @@ theorem service_races_only_on_guarded_tables (tbl : List Access) (htd : TableDis
   · exact Or.inr h
 
 /-- non-vacuity: Shutdown ∥ the accept loop's isRunning ∥ RegisterInterface ∥ a handler is an intended use -/
-example : IntendedUse serviceAccesses
-    [fnStmts serviceAccesses .Shutdown, fnStmts serviceAccesses .isRunning,
-     fnStmts serviceAccesses .RegisterInterface, fnStmts serviceAccesses .HandleMessage]
+example : IntendedUse serviceTable
+    [fnStmts serviceTable .Shutdown, fnStmts serviceTable .isRunning,
+     fnStmts serviceTable .RegisterInterface, fnStmts serviceTable .HandleMessage]
     (fun t => [[Fn.Shutdown], [.isRunning], [.RegisterInterface], [.HandleMessage]].getD t []) := by
   constructor
   · intro t x hx
@@ -132,7 +144,7 @@ example : IntendedUse serviceAccesses
       | n + 4 => simp at hg
     have : ∀ f ∈ [Fn.Shutdown, .isRunning, .RegisterInterface, .HandleMessage],
         ∀ g ∈ [Fn.Shutdown, .isRunning, .RegisterInterface, .HandleMessage],
-          (f = .isRunning ∧ g = .isRunning) ∨ mayOverlap serviceAccesses f g = true := by decide +kernel
+          (f = .isRunning ∧ g = .isRunning) ∨ mayOverlap serviceTable f g = true := by decide +kernel
     rcases this f hf' g hg' with ⟨e1, e2⟩ | h
     · -- both threads would be the serving call: excluded, the lists of two different threads differ
       subst e1; subst e2
@@ -217,13 +229,13 @@ example : ∃ s, Reach true s ∧ s.serving = 1 :=
     table; handlers only read the tables. -/
 theorem counter_system_matches_code :
     ("s.running || s.conncounter > 0", LockSt.held) ∈ registerInterfaceGuards ∧
-    registerChecksFirst (eventsOf serviceAccesses .RegisterInterface) = true ∧
+    registerChecksFirst (eventsOf serviceTable .RegisterInterface) = true ∧
     Fn.RegisterInterface ∈ deferUnlockFns ∧
-    incBeforeSpawn (eventsOf serviceAccesses .Listen) = true ∧ hasSpawn (eventsOf serviceAccesses .Listen) = true ∧
-    incBeforeSpawn (eventsOf serviceAccesses .DoListen) = true ∧ hasSpawn (eventsOf serviceAccesses .DoListen) = true ∧
-    (Fn.all.all fun f => f = .Listen || f = .DoListen || !hasSpawn (eventsOf serviceAccesses f)) = true ∧
-    decrementLast (eventsOf serviceAccesses .handleConnection) = true ∧
-    (serviceAccesses.all fun a => !(handlerFns serviceAccesses).contains a.fn ||
+    incBeforeSpawn (eventsOf serviceTable .Listen) = true ∧ hasSpawn (eventsOf serviceTable .Listen) = true ∧
+    incBeforeSpawn (eventsOf serviceTable .DoListen) = true ∧ hasSpawn (eventsOf serviceTable .DoListen) = true ∧
+    (Fn.all.all fun f => f = .Listen || f = .DoListen || !hasSpawn (eventsOf serviceTable f)) = true ∧
+    decrementLast (eventsOf serviceTable .handleConnection) = true ∧
+    (serviceTable.all fun a => !(handlerFns serviceTable).contains a.fn ||
         match a.ev with | .write f => !isTable f | _ => true) = true := by decide +kernel
 
 /-! ### 4. ctxio: the helper goroutine is joined before every return -/
